@@ -2,6 +2,7 @@ import logging
 import textwrap
 
 from ..decorators import _display_or_return, _manage_log_level_via_verbosity
+from ..functions import _creation_commands_literal
 from . import Container
 
 logger = logging.getLogger(__name__)
@@ -158,11 +159,14 @@ class Properties(Container):
 
         properties = self.properties()
         if properties:
-            out.append(f"{name}.set_properties({properties})")
+            out.append(
+                f"{name}.set_properties("
+                f"{_creation_commands_literal(properties)})"
+            )
 
         nc = self.nc_get_variable(None)
         if nc is not None:
-            out.append(f"{name}.nc_set_variable('{nc}')")
+            out.append(f"{name}.nc_set_variable({nc!r})")
 
         if string:
             indent = " " * indent
